@@ -246,91 +246,128 @@ def Mon.next (m : Mon) (op : Op) (o : Obs) : Mon :=
         | _ => m.owed
       else m.owed }
 
-def expectedChoice (cfg : Cfg) (m : Mon) : Choice :=
-  match m.schema with
-  | none => .dflt
-  | some s =>
-    if cfg.rateLimiter = .remote ∧ s.strategy ≠ .empty ∧ s.strategy ≠ .loc ∧ cfg.hasCS = true
-       ∧ (m.shards ≠ 0 ∧ specReady m.hist = true) ∧ m.synced = true then .remote else .loc
+/-! ## the judge: the property's clauses, stated from its text
 
-/-- the size the count wrappers' error fallback must produce -/
-def miFallback (obs localMax wmax : Int) : Int :=
-  let x := if obs < localMax then localMax else obs
-  if x > wmax then wmax else x
+Every clause is ONE-SIDED: it rejects what breaks the statement of C09, not what merely differs from the current
+code's formulas (those differences are the correspondence check's business: model == code). Readings, see notes §2:
+* "never admits more than the configured global limit": the remote limiter is finite, of the schema's type and within
+  the bound in force (`c09.cap-exceeds-global`, `c09.answer-type-mismatch`), the requests in flight in it are within it
+  (`c09.inflight-exceeds-global`);
+* "while the server is unknown, not ready or failing the instance enforces the local limit rather than none": with no
+  success ever, after more than the time-out of consecutive failure, or while the instance itself says not ready,
+  requests get the local limiter, which IS the schema's local limit (`c09.ready-hysteresis`, `c09.fallback-choice`,
+  `c09.local-limit-not-enforced`); an error reply leaves a finite limiter of the schema's type (`c09.error-fallback`;
+  the cap is the first bullet) — max(observed, local), exactly local, or anything else finite ≤ global;
+* "server-granted quotas take effect again once the server recovers": ready again on a success, the remote limiter is
+  handed out again, a granted quota within `[0, global]` IS the limiter (`c09.quota-not-applied`), a fresh accepted
+  reply gives at least `min(limit, max)` (`c09.recover-not-applied`), a stale reply changes nothing
+  (`c09.stale-reply-applied`), and the instance keeps asking: a request at the latest `resyncBound` seconds after the
+  last contact (`c09.no-request-when-due`) and for more than zero tokens when its bucket is empty, nothing is
+  outstanding and there is demand (`c09.no-tokens-requested-on-demand`). -/
 
-def tbFallbackQps (mt : Meter) (localQps wqps : Int) : Int :=
-  if mt.rateNum < localQps * mt.rateDen then (if localQps > wqps then wqps else localQps)
-  else if mt.rateNum > wqps * mt.rateDen then wqps
-  else Int.tdiv mt.rateNum mt.rateDen
+/-- was the server ever up, by the heartbeat history? -/
+def everUp (hist : List (Bool × Int)) : Bool := hist.any (·.1)
 
-def clampAccept (limit reserve wmax : Int) : Int :=
-  let l := if limit < reserve then reserve else limit
-  if l > wmax then wmax else l
+/-- the instance MUST consider the server not ready: never a success, or the latest heartbeat failed and the current
+    run of failures is longer than `ServerHeartBeatTimeout` -/
+def specMustDown (hist : List (Bool × Int)) : Bool :=
+  !everUp hist ||
+  (match hist with
+   | (false, now) :: rest => decide (now > (failRunStart rest).getD now + serverHeartBeatTimeout)
+   | _ => false)
 
-/-- judgements about one `SetLimit` on a max-in-flight count wrapper: its fields before, the reply, its limiter after -/
-def judgeMISet (lastAcq wreserve wmax : Int) (punavail : Bool) (prlim : Option Lim) (localMi : Option Int)
-    (obsMax : Int) (r : Reply) (orlim : Option Lim) (ounavail : Bool) : List String :=
+/-- the instance MUST consider the server ready: the latest heartbeat succeeded (it has recovered) -/
+def specMustUp : List (Bool × Int) → Bool
+  | (true, _) :: _ => true
+  | _ => false
+
+/-- requests must get the LOCAL limiter -/
+def mustLocal (cfg : Cfg) (m' : Mon) (s : Schema) (o : Obs) : Bool :=
+  decide (cfg.rateLimiter ≠ .remote) || decide (s.strategy = .empty) || decide (s.strategy = .loc) || !cfg.hasCS ||
+  decide (m'.shards = 0) || specMustDown m'.hist || !o.ready || o.rlim.isNone
+
+/-- requests must get the REMOTE limiter: everything is configured for it, the server has recovered, the remote limiter
+    exists (by the specification and in fact) and is not in its own outage mode -/
+def mustRemote (cfg : Cfg) (m' : Mon) (s : Schema) (o : Obs) : Bool :=
+  decide (cfg.rateLimiter = .remote) && decide (s.strategy ≠ .empty) && decide (s.strategy ≠ .loc) && cfg.hasCS &&
+  decide (m'.shards ≠ 0) && specMustUp m'.hist && m'.synced && o.rlim.isSome && !o.unavail
+
+def isMI : Option Lim → Bool
+  | some (.mi _) => true
+  | _ => false
+
+def isTB : Option Lim → Bool
+  | some (.tb _ _) => true
+  | _ => false
+
+/-- one `SetLimit` on a max-in-flight count wrapper: its fields before, the reply, its limiter after -/
+def judgeMISet (lastAcq wmax : Int) (punavail : Bool) (prlim : Option Lim) (localMi : Option Int)
+    (r : Reply) (orlim : Option Lim) : List String :=
   let fresh := !(decide (r.rt > 0) && decide (r.rt ≤ lastAcq))
   if fresh && r.err == .none && r.accept then
-    (if ounavail = false ∧ orlim = some (.mi (clampAccept r.limit wreserve wmax)) then [] else ["c09.recover-not-applied"])
+    (match orlim with
+     | some (.mi x) => if (if r.limit > wmax then wmax else r.limit) ≤ x then [] else ["c09.recover-not-applied"]
+     | _ => ["c09.recover-not-applied"])
   else if fresh && r.err == .other && !punavail then
     match localMi with
-    | some l => if ounavail = true ∧ orlim = some (.mi (miFallback obsMax l wmax)) then [] else ["c09.error-fallback"]
+    | some _ => if isMI orlim then [] else ["c09.error-fallback"]
     | none => []
-  else if !fresh || r.err == .tooOld || (r.err == .other && punavail) then
-    (if orlim = prlim ∧ ounavail = punavail then [] else ["c09.stale-reply-applied"])
+  else if !fresh || r.err == .tooOld then
+    (if orlim = prlim then [] else ["c09.stale-reply-applied"])
   else []
 
 /-- the same for a token-bucket count wrapper -/
-def judgeTBSet (wqps wburst : Int) (punavail : Bool) (prlim : Option Lim) (localTb : Option TB) (mt : Meter)
-    (r : Reply) (orlim : Option Lim) (ounavail : Bool) : List String :=
+def judgeTBSet (wqps wburst : Int) (punavail : Bool) (prlim : Option Lim) (localTb : Option TB)
+    (r : Reply) (orlim : Option Lim) : List String :=
   if r.err == .other && !punavail then
     match localTb with
-    | some lt =>
-      let q := tbFallbackQps mt lt.qps wqps
-      let b := if q > wburst then wburst else q
-      if ounavail = true ∧ orlim = some (.tb q b) then [] else ["c09.error-fallback"]
+    | some _ => if isTB orlim then [] else ["c09.error-fallback"]
     | none => []
   else if r.err == .none && r.accept && punavail then
-    (if ounavail = false ∧ orlim = some (.tb wqps wburst) then [] else ["c09.recover-not-applied"])
-  else
+    (match orlim with
+     | some (.tb q b) => if wqps ≤ q ∧ wburst ≤ b then [] else ["c09.recover-not-applied"]
+     | _ => ["c09.recover-not-applied"])
+  else if r.err == .tooOld then
     (if orlim = prlim then [] else ["c09.stale-reply-applied"])
+  else []
 
 /-- judgements about one `SetLimit` from the previous observation `m.prev` to `o` -/
 def judgeSetLimit (m : Mon) (r : Reply) (o : Obs) : List String :=
   let p := m.prev
   if p.wkind = 2 then
-    judgeMISet p.lastAcq p.wreserve p.wmax p.unavail p.rlim (m.schema.bind (·.mi)) m.meter.maxInflight r o.rlim o.unavail
+    judgeMISet p.lastAcq p.wmax p.unavail p.rlim (m.schema.bind (·.mi)) r o.rlim
   else if p.wkind = 3 then
-    judgeTBSet p.wqps p.wburst p.unavail p.rlim (m.schema.bind (·.tb)) m.meter r o.rlim o.unavail
+    judgeTBSet p.wqps p.wburst p.unavail p.rlim (m.schema.bind (·.tb)) r o.rlim
   else []
 
 /-- clauses about the state reached: `m'` is the monitor after the operation, `o` the observation made then -/
 def judgePost (cfg : Cfg) (m' : Mon) (o : Obs) : List String :=
-  (if o.ready = (decide (m'.shards ≠ 0) && specReady m'.hist) then [] else ["c09.ready-hysteresis"]) ++
-  (if o.choice = expectedChoice cfg m' then [] else ["c09.fallback-choice"]) ++
+  (if (m'.shards = 0 ∨ specMustDown m'.hist = true) ∧ o.ready = true then ["c09.ready-hysteresis"] else []) ++
+  (if m'.shards ≠ 0 ∧ specMustUp m'.hist = true ∧ o.ready = false then ["c09.ready-hysteresis"] else []) ++
   (match m'.schema with
-   | none => []
+   | none => if o.choice = .dflt then [] else ["c09.fallback-choice"]
    | some s =>
+     (if o.choice = .dflt then ["c09.fallback-choice"] else []) ++
+     (if mustLocal cfg m' s o = true ∧ o.choice ≠ .loc then ["c09.fallback-choice"] else []) ++
+     (if mustRemote cfg m' s o = true ∧ o.choice ≠ .remote then ["c09.fallback-choice"] else []) ++
      (if o.choice = .loc ∧ o.lim ≠ some (limOf s) then ["c09.local-limit-not-enforced"] else []) ++
      (if o.choice = .remote ∧ o.lim ≠ o.rlim then ["c09.fallback-choice"] else []) ++
      (match o.rlim with
-      | none => if m'.synced then ["c09.remote-limiter-missing"] else []
+      | none => []
       | some l =>
         if l.kind ≠ guessType s then ["c09.answer-type-mismatch"]
         else if Lim.leb l m'.ob then [] else ["c09.cap-exceeds-global"]))
 
-/-- judgements about one round of the counter manager (`Op.tick`):
-* `c09.no-request-when-due` — **the instance keeps asking**: while a count wrapper exists, a round that comes more
-  than 2 s (unix seconds) after the last possible creation/answer of the counter must send a request for the flow
-  control — degraded or not, idle or not, reserve full or not — unless an event may be pending (a token-bucket
-  counter with a pending event and nothing to ask for consumes the event first and resyncs in the next round).
-  Without that request no accepted answer can ever arrive and a degraded limiter would stay degraded for ever.
-* the answer to the request goes through `SetLimit` like any acquire result (`judgeSetLimit`: recovery, error
-  fallback, stale replies), with the round's time as its request time. -/
+/-- the instance must have asked the server again at the latest this many (unix) seconds after the last contact; the
+    code's resync period is 2 s, the property has no number: the check's reading is twice the heartbeat time-out -/
+def resyncBound : Int := 10
+
+/-- judgements about one round of the counter manager (`Op.tick`): while a count wrapper exists, a round more than
+    `resyncBound` seconds after the last possible contact MUST send a request (token bucket: unless an event may be
+    pending, which it serves first); the answer of a round is judged like any acquire result -/
 def judgeTick (m : Mon) (now : Int) (ans : Option TickAnswer) (o : Obs) : List String :=
   let p := m.prev
-  (if (p.wkind = 2 ∨ (p.wkind = 3 ∧ m.mayEvent = false)) ∧ unixS now - m.contact > 2 ∧ o.req.isNone
+  (if (p.wkind = 2 ∨ (p.wkind = 3 ∧ m.mayEvent = false)) ∧ unixS now - m.contact > resyncBound ∧ o.req.isNone
    then ["c09.no-request-when-due"] else []) ++
   (match ans, o.req with
    | some a, some hits =>
@@ -341,20 +378,14 @@ def reqPositive : Option Int → Bool
   | some h => decide (h > 0)
   | none => false
 
-def isMI : Option Lim → Bool
-  | some (.mi _) => true
-  | _ => false
-
-/-- **tokens ARE requested when there is demand and room**: a round of a token-bucket count wrapper with a pending
-    event (demand), whose reserve is not full once the tokens of the requests still unanswered are counted
-    (`room = reserve − tokens − owed > 0`), must ask for more than zero tokens — unless the room is below one batch
-    and the last answer is less than `batchAcquireMaxDuration` old. A wrapper whose `tokenInflight` has leaked (tokens
-    of FAILED requests never given back) stops asking for ever: the granted quota never takes effect again. -/
-def judgeDemand (m : Mon) (now : Int) (o : Obs) : List String :=
+/-- **tokens ARE requested when there is demand and nothing else to wait for**: a round of a token-bucket count wrapper
+    that is not in its outage mode, with a pending event (demand), an EMPTY bucket, NO request outstanding (by the
+    monitor's own book-keeping `owed`, not the implementation's) and a reserve to fill, must ask for more than zero
+    tokens. (How much, and when a partly filled bucket is topped up, is the implementation's batching policy.) -/
+def judgeDemand (m : Mon) (o : Obs) : List String :=
   let p := m.prev
-  let room := i32sub (i32sub p.wreserve p.tokens) m.owed
-  if p.wkind = 3 ∧ m.mustEvent = true ∧ room > 0 ∧ p.tokenBatch ≥ 1 ∧
-     (room ≥ p.tokenBatch ∨ now - p.lastAcq ≥ batchAcquireMaxDuration) ∧
+  if p.wkind = 3 ∧ m.mustEvent = true ∧ p.unavail = false ∧ p.tokens = 0 ∧ m.owed = 0 ∧
+     1 ≤ p.tokenBatch ∧ p.tokenBatch ≤ p.wreserve ∧ p.wreserve ≤ 2147483647 ∧
      reqPositive o.req = false
   then ["c09.no-tokens-requested-on-demand"] else []
 
@@ -371,12 +402,16 @@ def judgeAcquire (m : Mon) (id : Nat) (o : Obs) : List String :=
 /-- clauses about the transition made by `op` from the monitor `m` (before) to the observation `o` (after) -/
 def judgeTrans (m : Mon) (op : Op) (o : Obs) : List String :=
   match op with
-  | .tick now ans => judgeTick m now ans o ++ judgeDemand m now o
+  | .tick now ans => judgeTick m now ans o ++ judgeDemand m o
   | .acquire id => judgeAcquire m id o
   | .answer true item =>
+    -- a granted quota within `[0, global]` IS the limiter; one outside it is only bounded (`c09.cap-exceeds-global`)
     if effective m op && decide (o.wkind = 1) then
       match m.schema with
-      | some s => if o.rlim = some (limOfItem (boundByGlobalLimit s item)) then [] else ["c09.quota-not-applied"]
+      | some s =>
+        if boundByGlobalLimit s item = item then
+          (if o.rlim = some (limOfItem item) then [] else ["c09.quota-not-applied"])
+        else []
       | none => []
     else []
   | .setLimit r => judgeSetLimit m r o
